@@ -1,14 +1,16 @@
 #!/bin/sh
 # usage: run_seeded.sh <property> <patch-file> [extra check args]
-# Applies a seeded change to /repo, runs the property's quick check, and undoes the change.
+# Applies a seeded change to /repo (or to the checkout named by SEED_REPO), runs the property's quick
+# check, and undoes the change.
 P="$1"; PATCH="$2"; shift 2
-cd /repo || exit 2
+R="${SEED_REPO:-/repo}"; export VERIF_REPO="$R"
+cd "$R" || exit 2
 if [ -n "$(git status --porcelain --untracked-files=no)" ]; then echo "run_seeded: /repo has uncommitted changes"; exit 2; fi
 git apply "$PATCH" || { echo "run_seeded: patch does not apply"; exit 2; }
-/verif/bin/check "$P" "$@" > /tmp/run_seeded.out 2>&1
+/verif/bin/check "$P" "$@" > /tmp/run_seeded.$P.out 2>&1
 RC=$?
 git checkout -- . 
 git clean -fdq internal >/dev/null 2>&1
-grep "^VIOLATION\|^FAILED-OBLIGATION\|^MISSING\|^SUMMARY\|ENGINE-ERROR\|CONTRACT-ERROR" /tmp/run_seeded.out | cut -c1-260
+grep "^VIOLATION\|^FAILED-OBLIGATION\|^MISSING\|^SUMMARY\|ENGINE-ERROR\|CONTRACT-ERROR" /tmp/run_seeded.$P.out | cut -c1-260
 echo "exit=$RC"
 exit $RC
